@@ -27,6 +27,7 @@ import (
 
 	"context"
 
+	"github.com/google/inverting-proxy/verifhook"
 	"github.com/gorilla/websocket"
 )
 
@@ -169,10 +170,12 @@ func NewConnection(ctx context.Context, targetURL string, header http.Header, er
 
 // Close closes the websocket client connection.
 func (conn *Connection) Close() {
+	verifhook.Gate("ws.close.enter")
 	conn.clientMessages <- &message{
 		websocket.CloseMessage,
 		websocket.FormatCloseMessage(websocket.CloseNormalClosure, ""),
 	}
+	verifhook.Gate("ws.close.sent")
 	// Closing the writing routine.
 	close(conn.clientMessages)
 }
@@ -222,6 +225,7 @@ func (conn *Connection) SendClientMessage(msg interface{}, injectionEnabled bool
 	case <-conn.done():
 		return fmt.Errorf("attempt to send a client message on a closed websocket connection")
 	default:
+		verifhook.Gate("ws.send.checked")
 		conn.clientMessages <- clientMessage
 	}
 	return nil
